@@ -122,16 +122,20 @@ ParseVerdict(c) ==
   \o (IF r.class = "incomplete" /\ IsDecEntry(c.entry) /\ c.outcome = "ok" /\ ~Refused(c)
       THEN <<"C18:truncated stream reported as clean end">> ELSE <<>>)
   \o (IF r.class = "complete" /\ ~Accepted(c) /\ ~(r.mayrej /\ Refused(c))
-      THEN <<P \o ":valid document not accepted">> ELSE <<>>)
-  \o (IF r.class = "complete" /\ Accepted(c) /\ ~SeqEquiv(R, Values(r.ev), Values(out))
+      THEN <<P \o ":valid document not accepted">>
+           \o (IF IsDecEntry(c.entry) /\ c.outcome = "ok" THEN <<"C18:Next returned an error on a stream of valid values">> ELSE <<>>)
+      ELSE <<>>)
+  \* (c.evcap: the harness stopped recording after 200000 events - a few bytes of UBJSON can announce millions of
+  \*  payload-free elements; what was recorded then is a prefix and is not judged)
+  \o (IF r.class = "complete" /\ Accepted(c) /\ ~c.evcap /\ ~SeqEquiv(R, Values(r.ev), Values(out))
       THEN <<P \o ":value differs from the reference value">> ELSE <<>>)
   \o (IF MustRefuse(c.fmt, r) /\ ~Refused(c)
       THEN <<P \o ":" \o r.class \o " input not refused with an error (" \o r.why \o ")">> ELSE <<>>)
-  \o (IF MustRefuse(c.fmt, r) /\ ~EvPrefix(R, r.ev, out)
+  \o (IF MustRefuse(c.fmt, r) /\ ~c.evcap /\ ~EvPrefix(R, r.ev, out)
       THEN <<P \o ":events reported beyond the offending item">> ELSE <<>>)
-  \o (IF Accepted(c) /\ r.class \in {"complete", "grey", "invalid", "lex", "unsupported"} /\ ~(cr.ok /\ cr.stk = <<>>)
+  \o (IF Accepted(c) /\ ~c.evcap /\ r.class \in {"complete", "grey", "invalid", "lex", "unsupported"} /\ ~(cr.ok /\ cr.stk = <<>>)
       THEN <<"C09:contract:" \o (IF cr.ok THEN "unbalanced at end" ELSE cr.why)>> ELSE <<>>)
-  \o (IF IsDecEntry(c.entry) /\ r.class = "complete" /\ c.outcome = "ok" /\ ~TrailingBareNumber(c)
+  \o (IF IsDecEntry(c.entry) /\ r.class = "complete" /\ c.outcome = "ok" /\ ~c.evcap /\ ~TrailingBareNumber(c)
       THEN (IF NextWrong(c, r, R) # {} THEN <<"C18:a Next call did not deliver exactly the next value">> ELSE <<>>)
            \o (IF Accepted(c) /\ Len(c.calls) # r.done + 1
                THEN <<"C18:number of successful Next calls differs from the number of values">> ELSE <<>>)
@@ -425,6 +429,7 @@ ConcVerdict(c) ==
   ELSE IF x.infra # "" THEN <<"INFRA:" \o x.infra>>
   ELSE (IF x.mismatches > 0 \/ x.errors > 0 THEN <<"C19:a goroutine obtained a different result than running alone">> ELSE <<>>)
        \o (IF x.uses_global \/ x.reused_ids > 0 THEN <<"C19:a type registry is shared between instances (ownership violated)">> ELSE <<>>)
+       \o (IF x.iso > 0 THEN <<"C19:an instance created with options changed what instances without them do">> ELSE <<>>)
 
 \* ---- kind "goreuse" (C17: iterator and unfolder) -------------------------------------
 GoReuseVerdict(c) ==
